@@ -434,21 +434,21 @@ func monitor(c fw.Case, out []string) []string {
 		}
 	}
 	kind := ""
-	last := map[string]map[string]string{}      // client -> record text it holds (as last printed)
-	wins := map[string]int{}                    // record|version carried -> successful updates
-	wver := map[string]int{}                    // record -> version of the last successful write
-	seenVer := map[string]int{}                 // record -> highest version handed out by any read
-	nextIdx := map[string]int{}                 // log -> index of the last successful create
-	recIdx := map[string]string{}               // record -> index
-	view := map[string]string{}                 // record -> observer's last view
-	okWrite := map[string]bool{}                // record -> a write succeeded since the observer's last view
-	failedCarry := map[string]bool{}            // record -> a refused write since then carried path values
-	carriedC := map[string]map[string]bool{}    // record -> committed path:index pairs any write carried
-	carriedA := map[string]map[string]bool{}    // record -> applied pairs
-	created := map[string]bool{}                // records successfully created (by id text as listed)
-	spaces := map[string]bool{}                 // tx3 targets touched
-	latestEv := map[string]string{}             // event key (hex) -> ordinal of the latest successful write
-	tainted := false                            // v3 configuration: a write succeeded whose ObjectMeta.Key is not getKey(ID)
+	last := map[string]map[string]string{}   // client -> record text it holds (as last printed)
+	wins := map[string]int{}                 // record|version carried -> successful updates
+	wver := map[string]int{}                 // record -> version of the last successful write
+	seenVer := map[string]int{}              // record -> highest version handed out by any read
+	nextIdx := map[string]int{}              // log -> index of the last successful create
+	recIdx := map[string]string{}            // record -> index
+	view := map[string]string{}              // record -> observer's last view
+	okWrite := map[string]bool{}             // record -> a write succeeded since the observer's last view
+	failedCarry := map[string]bool{}         // record -> a refused write since then carried path values
+	carriedC := map[string]map[string]bool{} // record -> committed path:index pairs any write carried
+	carriedA := map[string]map[string]bool{} // record -> applied pairs
+	created := map[string]bool{}             // records successfully created (by id text as listed)
+	spaces := map[string]bool{}              // tx3 targets touched
+	latestEv := map[string]string{}          // event key (hex) -> ordinal of the latest successful write
+	tainted := false                         // v3 configuration: a write succeeded whose ObjectMeta.Key is not getKey(ID)
 	for i, ln := range c.Script {
 		if i >= len(out) {
 			break
@@ -766,10 +766,10 @@ var Prop = &fw.Prop{
 		"Non-trivial = at least one same-version write pair or one cancel; distinct = distinct script.",
 	Quick: 700, Thorough: 12000, Workers: 8,
 	Gen: gen, Enumerate: enumerate,
-	NewReal: pool.NewReal,
-	Monitor: monitor,
-	Match:   match,
-	Reset:   "store.reset",
+	NewReal:  pool.NewReal,
+	Monitor:  monitor,
+	Match:    match,
+	Reset:    "store.reset",
 	RealOnly: func(line string) bool { return strings.HasPrefix(line, "store.real.") },
 	Sigs: map[string]func(fw.Case, []string, string) bool{
 		"cfgValuesBeforeCas": func(c fw.Case, out []string, msg string) bool {
